@@ -762,16 +762,23 @@ fn build_vp09_fmp4(config: &FragmentConfig) -> Vec<u8> {
 }
 
 fn build_vpcc_fmp4(config: &FragmentConfig) -> Vec<u8> {
+    // Same layout as the progressive muxer: FullBox(version 1, flags 0) followed by the
+    // VPCodecConfigurationRecord (VP Codec ISO Media File Format Binding).
+    const CHROMA_420_COLOCATED: u8 = 1;
     let mut payload = Vec::new();
     if let Some(vp9_config) = &config.vp9_config {
-        payload.push(1); // version
+        payload.extend_from_slice(&[1, 0, 0, 0]); // FullBox version 1, flags 0
         payload.push(vp9_config.profile); // profile
         payload.push(vp9_config.level); // level
-        payload.push(vp9_config.bit_depth); // bit_depth
-        payload.push(vp9_config.color_space); // color_space
-        payload.push(vp9_config.transfer_function); // transfer_function
-        payload.push(vp9_config.matrix_coefficients); // matrix_coefficients
-        payload.push(vp9_config.full_range_flag); // full_range_flag
+        payload.push(
+            ((vp9_config.bit_depth & 0x0f) << 4)
+                | (CHROMA_420_COLOCATED << 1)
+                | (vp9_config.full_range_flag & 0x01),
+        ); // bitDepth(4) chromaSubsampling(3) videoFullRangeFlag(1)
+        payload.push(vp9_config.color_space); // colourPrimaries
+        payload.push(vp9_config.transfer_function); // transferCharacteristics
+        payload.push(vp9_config.matrix_coefficients); // matrixCoefficients
+        payload.extend_from_slice(&0u16.to_be_bytes()); // codecIntializationDataSize
     }
     build_box(b"vpcC", &payload)
 }
